@@ -1759,7 +1759,7 @@ resolve_property!(
     oracle_c06,
     60_000,
     1_000_000,
-    "first a deterministic sweep - each of 20 poison kinds (unrelated owner / off-path alias / alias fan / SOA / wrong type / duplicate in the answer section; NS for a non-ancestor, a shallower or same-depth ancestor, a foreign owner, extra SOA in authority; glue for unnamed hosts and unrelated records in additional; six kinds of reply that must be discarded whole - wrong ID, QR clear, opcode, question, TC, rcode - carrying tagged records) at each of 6 exchange positions of 8 universes (960 runs) - then random mixtures at random rates. Poison records are uniquely tagged. After every question every cache entry (snapshot hook) and every returned record must be justified by an acceptable reply under rules R0-R4 (DESIGN 4.3), with the delegation depth in use taken from the H5 trace. Non-trivial = poison delivered in an acceptable reply or tagged records in a discarded one; distinct = distinct (exchange sequence, faults, result classes)",
+    "first a deterministic sweep - each of 23 poison kinds (unrelated owner / off-path alias / alias fan / SOA / wrong type / duplicate in the answer section; NS for a non-ancestor, a shallower or same-depth ancestor, a foreign owner, extra SOA in authority; glue for unnamed hosts and unrelated records in additional; eight kinds of reply that must be discarded whole - wrong ID, QR clear, opcode, question, TC, rcode refused / reserved (6..15) / formerr-servfail-notimp - carrying tagged records) at each of 6 exchange positions of 8 universes (1104 runs) - then random mixtures at random rates. Poison records are uniquely tagged. After every question every cache entry (snapshot hook) and every returned record must be justified by an acceptable reply under rules R0-R4 (DESIGN 4.3), with the delegation depth in use taken from the H5 trace. Non-trivial = poison delivered in an acceptable reply or tagged records in a discarded one; distinct = distinct (exchange sequence, faults, result classes)",
     [
         "the justification rule is the property's sentence, section-agnostic; the code may be stricter",
         "a record of the asked type at any name on the alias path counts as justified (lenient on purpose)",
